@@ -74,10 +74,41 @@ uint8_t c04_junk = 0xA5;
 static bool c04_fill = true;      // false under valgrind (keep fresh memory undefined for memcheck)
 static volatile int alloc_broken; // table overflow / foreign pointer
 
+// Fault injection for the handle-reuse priming steps (never active during the execution whose result is reported):
+//   fail_countdown = N > 0: the N-th allocation from now fails (and, if fail_sticky, every later one too);
+//   fail_min_size  = T > 0: every allocation of at least T bytes fails (T = dictionary-sized: the LZ dictionary fails,
+//                           the small bookkeeping structs succeed).
+// A failed allocation counts as refused, so LZMA_MEM_ERROR is then a documented answer.
+static size_t fail_countdown, fail_min_size;
+static bool fail_sticky;
+
+static bool inject_failure(size_t n)
+{
+	bool fail = false;
+	pthread_mutex_lock(&amu);
+	if (fail_min_size != 0 && n >= fail_min_size)
+		fail = true;
+	if (fail_countdown != 0) {
+		if (fail_countdown == 1) {
+			fail = true;
+			if (!fail_sticky)
+				fail_countdown = 0;
+		} else {
+			--fail_countdown;
+		}
+	}
+	if (fail)
+		++c04_n_refused;
+	pthread_mutex_unlock(&amu);
+	return fail;
+}
+
 static void *h_alloc(void *opaque, size_t nmemb, size_t size)
 {
 	(void)opaque;
 	size_t n;
+	if (!__builtin_mul_overflow(nmemb, size, &n) && (fail_countdown != 0 || fail_min_size != 0) && inject_failure(n))
+		return NULL;
 	if (__builtin_mul_overflow(nmemb, size, &n) || n > c04_alloc_cap) {
 		pthread_mutex_lock(&amu);
 		++c04_n_refused;
@@ -226,10 +257,6 @@ static void exec_once(const c04_op *op, c04_res *r)
 	}
 }
 
-// The same execution on a REUSED handle: a lzma_stream that already ran another (or the same) coder on the same bytes and
-// was left in whatever state that run ended in (success, error, or abandoned in the middle), re-initialised without
-// lzma_end. Everything is derived from the op's seed, so the op line alone replays it. Allocator balance is checked
-// after the single final lzma_end.
 static const char *canned_for(const char *ep)
 {
 	// small valid inputs (tests/files/good-1-check-crc32.xz and its Block / LZMA2 payload / Index, good-known_size-with_eopm.lzma,
@@ -249,6 +276,60 @@ static const char *canned_for(const char *ep)
 	return NULL;
 }
 
+// An input for `ep` whose header asks for a DIFFERENT LZ dictionary size than usual (selected by `sel`), so that a decoder
+// that keeps its LZ coder across re-initialisations has to reallocate the dictionary. Returns a malloc'ed buffer or NULL.
+static uint8_t *other_dict_input(const char *ep, unsigned sel, size_t *len, c04_op *pop)
+{
+	static const uint32_t sizes[] = { 1u << 20, 1u << 16, 3u << 19, 8192, 1u << 22, 4096 };
+	const uint32_t ds = sizes[sel % 6];
+	if (!strcmp(ep, "alone") || (!strcmp(ep, "auto") && (sel & 8))) {
+		uint8_t *b = hp_hex(canned_for("alone"), len);
+		for (int i = 0; i < 4; ++i)
+			b[1 + i] = (uint8_t)(ds >> (8 * i));
+		return b;
+	}
+	if (!strcmp(ep, "lzip")) {
+		static const uint8_t codes[] = { 0x14, 0x10, 0x15, 0x0D, 0x16, 0x0C };
+		uint8_t *b = hp_hex(canned_for("lzip"), len);
+		b[5] = codes[sel % 6];
+		return b;
+	}
+	if (!strcmp(ep, "micro")) {
+		pop->p[3] = ds;
+		return NULL;     // same bytes, the dictionary size is an argument
+	}
+	if (!strcmp(ep, "raw")) {
+		static const unsigned chains[] = { 2, 1, 0, 5, 3, 10 };
+		pop->p[0] = chains[sel % 6];
+		return NULL;
+	}
+	if (!strcmp(ep, "stream") || !strcmp(ep, "mt") || !strcmp(ep, "auto") || !strcmp(ep, "fileinfo") || !strcmp(ep, "block")) {
+		// the canned .xz (or its Block) with another LZMA2 dictionary byte, Block Header CRC32 recomputed
+		static const uint8_t dbytes[] = { 0x10, 0x08, 0x0F, 0x02, 0x14, 0x00 };
+		uint8_t *b = hp_hex(canned_for(ep), len);
+		const size_t off = !strcmp(ep, "block") ? 0 : 12;
+		b[off + 4] = dbytes[sel % 6];
+		const uint32_t c = lzma_crc32(b + off, 8, 0);
+		for (int i = 0; i < 4; ++i)
+			b[off + 8 + i] = (uint8_t)(c >> (8 * i));
+		if (!strcmp(ep, "block"))
+			pop->p[0] = 1;
+		return b;
+	}
+	return NULL;
+}
+
+// The same execution on a REUSED handle: a lzma_stream that already ran other (or the same) coders and was left in
+// whatever state those runs ended in — success, error, abandoned in the middle, or an initialisation / decode that FAILED
+// because the allocator refused a request — re-initialised without lzma_end. Everything is derived from the op's seed,
+// so the op line alone replays it. Allocator balance is checked after the single final lzma_end.
+//
+// Two kinds of history:
+//   random:     1-2 steps, each a seeded coder on the op's bytes or a canned valid input, each possibly with a failing
+//               allocator (N-th allocation, sticky or not, or every dictionary-sized request);
+//   three-step: (1) the op itself (allocates this decoder's dictionary, size X), (2) the SAME decoder kind on an input
+//               whose header asks for another dictionary size Y while the allocator refuses dictionary-sized requests or
+//               fails at a seeded N, (3) the op again = the execution whose result is reported and compared.
 static void exec_reused(const c04_op *op, c04_res *r)
 {
 	memset(r, 0, sizeof(*r));
@@ -261,41 +342,77 @@ static void exec_reused(const c04_op *op, c04_res *r)
 		c04_rng g = { op->seed * 0x9E3779B97F4A7C15ull + 0x5EED };
 		lzma_stream h = LZMA_STREAM_INIT;
 		h.allocator = &c04_alloc;
-		const unsigned rounds = 1 + (unsigned)c04_below(&g, 2);
+		const bool three_step = c04_below(&g, 3) == 0;
+		const unsigned rounds = three_step ? 2 : 1 + (unsigned)c04_below(&g, 2);
 		for (unsigned k = 0; k < rounds && r->bad[0] == '\0'; ++k) {
 			c04_op pop = *op;
 			c04_res pr;
 			memset(&pr, 0, sizeof(pr));
 			pr.init_ret = pr.ret = -1;
 			pop.seed = c04_next(&g);
-			if (c04_below(&g, 2) == 0) {
-				pop.ep = eps[c04_below(&g, sizeof(eps) / sizeof(eps[0]))];
-				pop.p[0] = !strcmp(pop.ep, "block") ? 1 : 0;
-				pop.p[1] = !strcmp(pop.ep, "micro") ? 100 : UINT64_MAX;
-				pop.p[2] = !strcmp(pop.ep, "mt") ? 2 : 0;
-				pop.p[3] = !strcmp(pop.ep, "micro") ? 4096 : UINT64_MAX;
-			}
-			const unsigned abandon = c04_below(&g, 2) == 0 ? 1 + (unsigned)c04_below(&g, 40) : 0;
+			unsigned abandon = 0;
 			uint8_t *canned = NULL;
-			if (c04_below(&g, 2) == 0 && canned_for(pop.ep) != NULL) {
-				size_t cn;
-				canned = hp_hex(canned_for(pop.ep), &cn);
-				pop.in = canned;
-				pop.in_len = cn;
-				if (pop.ep != op->ep) {
-					pop.p[0] = !strcmp(pop.ep, "block") ? 1 : 0;
-					pop.p[1] = UINT64_MAX;
-				} else if (!strcmp(pop.ep, "raw")) {
-					pop.p[0] = 0;
-				} else if (!strcmp(pop.ep, "block")) {
-					pop.p[0] = 1;
+			bool inject = false;
+			if (three_step) {
+				if (k == 0) {
+					// the op itself, run to its end or far enough to have set up its dictionary
+					abandon = c04_below(&g, 2) == 0 ? 0 : 30 + (unsigned)c04_below(&g, 200);
+				} else {
+					size_t cn = 0;
+					canned = other_dict_input(op->ep, (unsigned)c04_below(&g, 48), &cn, &pop);
+					if (canned != NULL) {
+						pop.in = canned;
+						pop.in_len = cn;
+					}
+					if (!strcmp(op->ep, "stream") || !strcmp(op->ep, "auto") || !strcmp(op->ep, "mt") || !strcmp(op->ep, "fileinfo")) {
+						pop.p[0] = 0;
+						pop.p[1] = UINT64_MAX;
+					}
+					inject = true;
 				}
+			} else {
+				if (c04_below(&g, 2) == 0) {
+					pop.ep = eps[c04_below(&g, sizeof(eps) / sizeof(eps[0]))];
+					pop.p[0] = !strcmp(pop.ep, "block") ? 1 : 0;
+					pop.p[1] = !strcmp(pop.ep, "micro") ? 100 : UINT64_MAX;
+					pop.p[2] = !strcmp(pop.ep, "mt") ? 2 : 0;
+					pop.p[3] = !strcmp(pop.ep, "micro") ? 4096 : UINT64_MAX;
+				}
+				abandon = c04_below(&g, 2) == 0 ? 1 + (unsigned)c04_below(&g, 40) : 0;
+				if (c04_below(&g, 2) == 0 && canned_for(pop.ep) != NULL) {
+					size_t cn;
+					canned = hp_hex(canned_for(pop.ep), &cn);
+					pop.in = canned;
+					pop.in_len = cn;
+					if (pop.ep != op->ep) {
+						pop.p[0] = !strcmp(pop.ep, "block") ? 1 : 0;
+						pop.p[1] = UINT64_MAX;
+					} else if (!strcmp(pop.ep, "raw")) {
+						pop.p[0] = 0;
+					} else if (!strcmp(pop.ep, "block")) {
+						pop.p[0] = 1;
+					}
+				}
+				inject = c04_below(&g, 3) == 0;
 			}
 			c04_n_refused = 0;
+			if (inject) {
+				const unsigned mode = (unsigned)c04_below(&g, 4);
+				if (mode <= 1) {
+					fail_min_size = 4096;              // every dictionary-sized request (the coder structs of a reused
+					                                   // handle already exist; on a first use they fail too)
+				} else {
+					fail_countdown = 1 + (size_t)c04_below(&g, 10);
+					fail_sticky = mode == 3;
+				}
+			}
 			c04_run_stream_ep(&pop, &pr, &h, abandon);
+			fail_countdown = 0;
+			fail_min_size = 0;
+			fail_sticky = false;
 			free(canned);
 			if (pr.bad[0] != '\0')
-				c04_bad(r, "priming(%s):%s", pop.ep, pr.bad);
+				c04_bad(r, "priming(%s%s):%s", pop.ep, inject ? ",failing-allocator" : "", pr.bad);
 		}
 		if (r->bad[0] == '\0') {
 			c04_n_refused = 0;
